@@ -95,7 +95,7 @@ FILES = {
     "EXT_edges_n1.cfg": edges(N1E, 2), "EXT_edges_n2.cfg": edges(N2E, 4), "EXT_edges_n2xl.cfg": edges(N2XL, 3),
     "EXT_edges_n2f.cfg": edges(N2F, 4),
     "EX_edges_n1f.cfg": edges(N1F),
-    "EX_strict.cfg": edges(dict(N2E, Strict="TRUE")),
+    "EX_strict.cfg": edges(dict(N2E, Strict="TRUE"), 8),
     "EX_sim.cfg": sim(SIM, 120),
     "Trace_n2.cfg": trace(REAL2), "Trace_n5.cfg": trace(REAL5),
 }
